@@ -21,6 +21,12 @@ var (
 	CsvqRaceBin = filepath.Join(VerifDir, ".build", "csvq-race")
 )
 
+func init() {
+	// package-level initialisation order across files is by dependency; recompute to be safe
+	CsvqBin = filepath.Join(VerifDir, ".build", "csvq-verif")
+	CsvqRaceBin = filepath.Join(VerifDir, ".build", "csvq-race")
+}
+
 type ProcResult struct {
 	Code     int // exit code, or -1 when signalled
 	Signal   int // terminating signal, 0 if none
